@@ -93,10 +93,20 @@ PROXY_AGENT = {
 }
 
 
-def zone_of(ip: str) -> str:
+# subnets that are only *routed* through a firewall port (static route, next hop = the zone's host): the egress port the
+# route selects says which zone the packet leaves to, hence which egress-side list judges it
+ROUTED = {"external": "10.5.1.7", "internal": "10.5.2.7", "dmz": "10.5.3.7"}
+# router traffic mode: one host on each side of router r0; a packet is judged by the router's single list
+SIDES = {"ra": ("ra", A1, 1), "rb": ("rb", B1, 2)}
+
+
+def zone_of(ip: str) -> Tuple[str, bool]:
+    """(zone, routed?) of an address seen from the firewall."""
     for z, (_, addr, _) in ZONES.items():
         if ip.rsplit(".", 1)[0] == addr.rsplit(".", 1)[0]:
-            return z
+            return z, False
+        if ip.rsplit(".", 1)[0] == ROUTED[z].rsplit(".", 1)[0]:
+            return z, True
     raise ValueError(f"generator bug: {ip} is in no firewall zone")
 
 
@@ -199,6 +209,8 @@ def scenario(init: Dict[str, List], hosts: bool = False, agent: bool = False) ->
         "type": "router", "hostname": "r0", "num_ports": 2, "start_up_duration": 0, "shut_down_duration": 0,
         "ports": {1: {"ip_address": "10.0.1.254", "subnet_mask": "255.255.255.0"}},
     }
+    if hosts:
+        router["ports"][2] = {"ip_address": "10.0.2.254", "subnet_mask": "255.255.255.0"}
     if init.get("router"):
         router["acl"] = {int(p): rule_cfg(rule_dict(r)) for p, r in init["router"]}
     fw_acl: Dict[str, Any] = {}
@@ -222,10 +234,16 @@ def scenario(init: Dict[str, List], hosts: bool = False, agent: bool = False) ->
         for name, addr, port in ZONES.values():
             nodes.append(computer(name, addr, gw=addr.rsplit(".", 1)[0] + ".1", start_up_duration=0, shut_down_duration=0))
             links.append(link("f0", port, name, 1))
+        fw["routes"] = [{"address": ROUTED[z].rsplit(".", 1)[0] + ".0", "subnet_mask": "255.255.255.0",
+                         "next_hop_ip_address": ZONES[z][1]} for z in ZONES]
+        for name, addr, port in SIDES.values():
+            nodes.append(computer(name, addr, gw=addr.rsplit(".", 1)[0] + ".254", start_up_duration=0, shut_down_duration=0))
+            links.append(link("r0", port, name, 1))
     return base_cfg(nodes, links, agents=[dict(PROXY_AGENT)] if agent else None)
 
 
-def make_frame(pkt, src_mac: str = "aa:bb:cc:dd:ee:01", dst_mac: str = "aa:bb:cc:dd:ee:02", on_wire: bool = False):
+def make_frame(pkt, src_mac: str = "aa:bb:cc:dd:ee:01", dst_mac: str = "aa:bb:cc:dd:ee:02", on_wire: bool = False,
+               payload: Any = None):
     from primaite.simulator.network.protocols.icmp import ICMPPacket, ICMPType
     from primaite.simulator.network.transmission.data_link_layer import EthernetHeader, Frame
     from primaite.simulator.network.transmission.network_layer import IPPacket
@@ -245,6 +263,8 @@ def make_frame(pkt, src_mac: str = "aa:bb:cc:dd:ee:01", dst_mac: str = "aa:bb:cc
         kw["icmp"] = ICMPPacket(icmp_type=ICMPType.ECHO_REPLY) if on_wire else ICMPPacket()
         if on_wire:
             kw["payload"] = "c07-echo-payload-0123456"  # echo replies carry the request's payload
+    if payload is not None:
+        kw["payload"] = payload
     return Frame(**kw)
 
 
@@ -350,11 +370,11 @@ def run_case(case: Dict) -> CaseResult:
     cap = int(case.get("cap", 25))
     act_name = {a.value: a.name for a in ACLAction}
     LIST_OPS = ("add", "remove", "probe", "probe_all")
-    has_send = any(op[0] == "send" for op in ops)
+    has_send = any(op[0] in ("send", "send_arp") for op in ops)
     has_reset = any(op[0] == "reset" for op in ops)
     used = set(init) | {op[1] for op in ops if op[0] in LIST_OPS}
     if has_send:
-        used |= {f"fw:{x}" for x in FW_LISTS}  # a frame on the wire may touch any of the six lists
+        used |= {f"fw:{x}" for x in FW_LISTS} | {"router"}  # a frame on the wire may touch any list
     frames: Dict[Tuple, Any] = {}
     labels = set()
     game_lists = sorted(n for n in used if not n.startswith("acl:"))
@@ -384,6 +404,18 @@ def run_case(case: Dict) -> CaseResult:
                     return _real(frame, *a, **k)
 
                 object.__setattr__(port, "send_frame", recorder)  # observe-only wrapper on this instance
+            r0 = net.get_node_by_hostname("r0")
+            for side, (hname, _, pnum) in SIDES.items():
+                host, port = net.get_node_by_hostname(hname), r0.network_interface[pnum]
+                world["hosts"][side], world["ports"][side] = host, port
+                nic = host.network_interface[1]
+                r0.software_manager.arp.add_arp_cache_entry(ip_address=nic.ip_address, mac_address=nic.mac_address, network_interface=port)
+
+                def recorder(frame, *a, _zone=side, _real=port.send_frame, **k):
+                    world["sent"].append(_zone)
+                    return _real(frame, *a, **k)
+
+                object.__setattr__(port, "send_frame", recorder)
 
     def bind(opkind: str) -> bool:
         """Create model + list-under-test for every router/firewall list from the scenario's rules and compare."""
@@ -500,55 +532,89 @@ def run_case(case: Dict) -> CaseResult:
         return lut.model.rules[mm[0]]["action"] if mm else lut.model.implicit
 
     def send(zone: str, pkt, when) -> bool:
-        """Put the packet on the wire from the zone's host; the two lists the documentation names must judge it."""
-        ezone = zone_of(pkt[2])
-        if zone_of(pkt[1]) != zone or ezone == zone:
-            raise ValueError(f"generator bug: {pkt} does not cross the firewall from {zone}")
-        pair = f"{zone}->{ezone}"
+        """Put the packet on the wire from the zone's host; exactly the lists the documentation names must judge it."""
+        if zone in SIDES:  # through router r0: its one list judges every packet that is not a genuine ARP packet
+            ezone = "rb" if zone == "ra" else "ra"
+            if pkt[1] != SIDES[zone][1] or pkt[2] != SIDES[ezone][1]:
+                raise ValueError(f"generator bug: {pkt} does not cross the router from {zone}")
+            pair = "router"
+            stages = [luts["router"]]
+        else:
+            (szone, srouted), (ezone, routed) = zone_of(pkt[1]), zone_of(pkt[2])
+            if szone != zone or srouted or ezone == zone:
+                raise ValueError(f"generator bug: {pkt} does not cross the firewall from {zone}")
+            pair = f"{zone}->{ezone}" + ("(routed)" if routed else "")
+            stages = [luts[INGRESS_LIST[zone]], luts[EGRESS_LIST[ezone]]]
+            right = verdict_of(stages[1], pkt)
+            if any(verdict_of(luts[n], pkt) != right for n in EGRESS_LIST.values()) and verdict_of(stages[0], pkt) == "PERMIT":
+                labels.add(f"disagree:{pair}")  # judging by another zone's list would change the outcome
+                res.extra["nt"].add(hash(("send", pair, tuple(sorted((n, tuple(sorted(l.model.rules))) for n, l in luts.items())), pkt)))
         labels.add(f"pair:{pair}")
-        ing, egr = luts[INGRESS_LIST[zone]], luts[EGRESS_LIST[ezone]]
-        right = verdict_of(egr, pkt)
-        if any(verdict_of(luts[n], pkt) != right for n in EGRESS_LIST.values()) and verdict_of(ing, pkt) == "PERMIT":
-            labels.add(f"disagree:{pair}")  # judging by another zone's list would change the outcome
-            res.extra["nt"].add(hash(("send", pair, tuple(sorted((n, tuple(sorted(l.model.rules))) for n, l in luts.items())), pkt)))
+        arp_port = pkt[0] == "udp" and pkt[4] == 219
+        if arp_port:
+            labels.add(f"udp-to-arp-port:{'router' if zone in SIDES else 'firewall'}")
         host, port = world["hosts"][zone], world["ports"][zone]
         frame = make_frame(pkt, src_mac=host.network_interface[1].mac_address, dst_mac=port.mac_address, on_wire=True)
         world["sent"].clear()
         try:
             host.network_interface[1].send_frame(frame)
         except Exception as e:
-            res.violate(f"raise:send:{pair}:{exc_sig(e)}", f"{when}: {exc_msg(e)}")
-            return False
-        permitted1, _ = ing.model.decide(pkt)
-        expect_out = []
-        if permitted1:
-            permitted2, _ = egr.model.decide(pkt)
-            expect_out = [ezone] if permitted2 else []
-        else:
-            # a packet refused on the ingress side needs no second verdict; an implementation that still asks the
-            # egress-side list is accepted as long as the hit is on that list's deciding rule
-            mm = egr.model.matching(pkt)
-            snap2 = egr.snap()
-            want = dict(egr.model.hits)
-            if mm:
-                want[mm[0]] = want[mm[0]] + 1
-            if (snap2.hits, snap2.implicit_hits) == (want, egr.model.implicit_hits + (0 if mm else 1)):
-                egr.model.decide(pkt)
+            # not the end of the case: the verdicts were given before the frame left the router/firewall
+            res.violate(f"raise:send:{'udp-to-arp-port' if arp_port else 'packet'}:{exc_sig(e)}", f"{when}: {exc_msg(e)}")
+        expect_out = [ezone]
+        for k, l in enumerate(stages):
+            permitted, _ = l.model.decide(pkt)
+            if not permitted:
+                expect_out = []
+                for l2 in stages[k + 1:]:
+                    # a packet already refused needs no further verdict; an implementation that still asks the next
+                    # list is accepted as long as the hit is on that list's deciding rule
+                    mm = l2.model.matching(pkt)
+                    snap2 = l2.snap()
+                    want = dict(l2.model.hits)
+                    if mm:
+                        want[mm[0]] = want[mm[0]] + 1
+                    if (snap2.hits, snap2.implicit_hits) == (want, l2.model.implicit_hits + (0 if mm else 1)):
+                        l2.model.decide(pkt)
+                break
         ok = True
         for n in game_lists:
             l = luts[n]
             sn = l.snap()
             if sn.hits != l.model.hits or sn.implicit_hits != l.model.implicit_hits:
-                role = "ingress-list" if l is ing else "egress-list" if l is egr else "other-list"
+                role = "ingress-list" if l is stages[0] else "egress-list" if l is stages[-1] else "other-list"
                 res.violate(f"traffic-hit-mismatch:{pair}:{role}",
                             f"{when}: {n}: expected hits {l.model.hits} implicit {l.model.implicit_hits}, state has {sn.hits} "
-                            f"implicit {sn.implicit_hits} (judged by {ing.name} then {egr.name})")
-                ok = False
+                            f"implicit {sn.implicit_hits} (judged by {' then '.join(x.name for x in stages)})")
+                # carry on behind the mismatch from what the lists now show (only counters of existing rules can differ)
+                l.model.hits = {p: sn.hits.get(p, 0) for p in l.model.rules}
+                l.model.implicit_hits = sn.implicit_hits
         if world["sent"] != expect_out:
-            res.violate(f"traffic-forward-mismatch:{pair}", f"{when}: expected the firewall to send on {expect_out}, it sent on "
-                        f"{world['sent']} ({ing.name}: {'PERMIT' if permitted1 else 'DENY'})")
-            ok = False
+            res.violate(f"traffic-forward-mismatch:{pair}", f"{when}: expected forwarding on {expect_out}, got "
+                        f"{world['sent']} (judged by {' then '.join(x.name for x in stages)})")
         return ok
+
+    def send_arp(side: str, when) -> bool:
+        """A genuine ARP request for the router's address: layer-2 traffic, the only thing the router's list never judges."""
+        from primaite.simulator.network.protocols.arp import ARPPacket
+
+        host, port = world["hosts"][side], world["ports"][side]
+        nic = host.network_interface[1]
+        arp = ARPPacket(sender_mac_addr=nic.mac_address, sender_ip_address=nic.ip_address, target_ip_address=port.ip_address)
+        frame = make_frame(("udp", str(nic.ip_address), str(port.ip_address), 219, 219), src_mac=nic.mac_address,
+                           dst_mac="ff:ff:ff:ff:ff:ff", payload=arp)
+        try:
+            nic.send_frame(frame)
+        except Exception as e:
+            res.violate(f"raise:send:arp:{exc_sig(e)}", f"{when}: {exc_msg(e)}")
+            return False
+        l = luts["router"]
+        sn = l.snap()
+        if sn.hits != l.model.hits or sn.implicit_hits != l.model.implicit_hits:
+            res.violate("arp-packet-judged-by-router-list", f"{when}: expected hits {l.model.hits} implicit {l.model.implicit_hits}, "
+                        f"state has {sn.hits} implicit {sn.implicit_hits}")
+            return False
+        return True
 
     n_adds = n_removes = n_overwrites = n_probes = n_sends = n_resets = 0
     for i, op in enumerate(ops):
@@ -569,6 +635,12 @@ def run_case(case: Dict) -> CaseResult:
         if kind == "send":
             n_sends += 1
             if not send(op[1], tuple(op[2]), when):
+                break
+            continue
+        if kind == "send_arp":
+            n_sends += 1
+            labels.add("genuine-arp:router")
+            if not send_arp(op[1], when):
                 break
             continue
         name = op[1]
@@ -911,7 +983,8 @@ def random_case(draw, max_rules: int = 24, falsy: bool = False):
 # ---------------------------------------------------------------------------------------------------------------------
 # traffic mode (which lists judge a packet crossing the firewall) and episode mode (the list after env.reset())
 
-WIRE_PORTS = [22, 80, 53, 21, 8080, 5432, 1234, 65535]  # not 219: a UDP frame on the ARP port must carry an ARP packet
+WIRE_PORTS = [22, 80, 53, 21, 8080, 5432, 1234, 65535]
+ARP_PORT = 219  # a UDP datagram to this port with a non-ARP payload is an ordinary packet: only genuine ARP is exempt
 
 
 def traffic_cases(tier: str):
@@ -919,8 +992,9 @@ def traffic_cases(tier: str):
     list x the same on the egress-side list x every other list holding a catch-all PERMIT / DENY, rules installed through
     the scenario / Python / request door in turn; three packets (tcp, udp, icmp) are put on the wire per case."""
     k = 0
-    for a, b in ZONE_PAIRS:
-        src, dst = ZONES[a][1], ZONES[b][1]
+    for a, b, routed in [(a, b, r) for r in (False, True) for a, b in ZONE_PAIRS]:
+        # routed: the destination lies in a subnet the firewall reaches by a static route through zone b's port
+        src, dst = ZONES[a][1], (ROUTED[b] if routed else ZONES[b][1])
         flows = [[None, src, None, dst, None, None, None],                       # exact host pair
                  [None, src.rsplit(".", 1)[0] + ".0", "0.0.0.255", None, None, None, None],  # source subnet, any destination
                  [None, None, None, dst.rsplit(".", 1)[0] + ".0", "0.0.0.255", None, None]]  # any source, destination subnet
@@ -939,21 +1013,54 @@ def traffic_cases(tier: str):
                             rules[f"fw:{x}"] = [[k % 3, [others, None, None, None, None, None, None, None]]]
                     sends = [["send", a, ["tcp", src, dst, 1234, WIRE_PORTS[k % 8]]],
                              ["send", a, ["udp", src, dst, WIRE_PORTS[(k + 3) % 8], 1234]],
-                             ["send", a, ["icmp", src, dst, None, None]]]
+                             ["send", a, ["icmp", src, dst, None, None]],
+                             ["send", a, ["udp", src, dst, (1234, ARP_PORT)[k % 2], ARP_PORT]]]
                     door = ("cfg", "py", "req")[k % 3]
+                    kind = "traffic-routed" if routed else "traffic"
                     if door == "cfg":
-                        yield {"init": rules, "ops": sends, "kind": "traffic/cfg"}
+                        yield {"init": rules, "ops": sends, "kind": f"{kind}/cfg"}
                     else:
                         ops = [["add", n, door, p, r] for n, rr in sorted(rules.items()) for p, r in rr]
-                        yield {"ops": ops + sends, "kind": f"traffic/{door}"}
+                        yield {"ops": ops + sends, "kind": f"{kind}/{door}"}
+
+
+def router_traffic_cases(tier: str):
+    """Frames driven through router r0 in both directions: its single list judges every packet except genuine ARP."""
+    blockers = [None,                                                              # defaults only: implicit DENY decides
+                [0, ["DENY", "udp", None, None, None, None, None, None]],
+                [1, ["DENY", None, "10.0.0.0", "0.0.255.255", None, None, None, None]],
+                [0, ["PERMIT", None, None, None, None, None, None, None]],
+                [21, ["DENY", None, None, None, None, None, None, ARP_PORT]],
+                [2, ["PERMIT", "udp", None, None, None, None, None, ARP_PORT]]]
+    k = 0
+    for side in ("ra", "rb"):
+        other = "rb" if side == "ra" else "ra"
+        src, dst = SIDES[side][1], SIDES[other][1]
+        for blk in blockers:
+            for door in ("cfg", "py", "req"):
+                k += 1
+                sends = [["send", side, ["udp", src, dst, 1234, ARP_PORT]], ["send", side, ["udp", src, dst, ARP_PORT, ARP_PORT]],
+                         ["send_arp", side], ["send", side, ["udp", src, dst, ARP_PORT, 53]],
+                         ["send", side, ["tcp", src, dst, 1234, WIRE_PORTS[k % 8]]], ["send", side, ["icmp", src, dst, None, None]],
+                         ["send", other, ["udp", dst, src, WIRE_PORTS[k % 8], ARP_PORT]]]
+                if blk is None:
+                    if door == "cfg":
+                        yield {"ops": sends, "kind": "router-traffic/defaults"}
+                elif door == "cfg":
+                    yield {"init": {"router": [blk]}, "ops": sends, "kind": "router-traffic/cfg"}
+                else:
+                    yield {"ops": [["add", "router", door, blk[0], blk[1]]] + sends, "kind": f"router-traffic/{door}"}
 
 
 @st.composite
 def traffic_case(draw):
     """Random rule lists on all six firewall lists built around one flow, so that the lists disagree about it."""
+    port = st.sampled_from(WIRE_PORTS + [ARP_PORT, ARP_PORT])
+    if draw(st.integers(0, 3)) == 0:
+        return draw(router_traffic_case(port))
     a, b = draw(st.sampled_from(ZONE_PAIRS))
-    src, dst = ZONES[a][1], ZONES[b][1]
-    port = st.sampled_from(WIRE_PORTS)
+    routed = draw(st.integers(0, 2)) == 0
+    src, dst = ZONES[a][1], (ROUTED[b] if routed else ZONES[b][1])
     focus = draw(st.lists(st.one_of(st.tuples(st.sampled_from(["tcp", "udp"]), st.just(src), st.just(dst), port, port),
                                     st.just(("icmp", src, dst, None, None))).map(list), min_size=1, max_size=2))
     init: Dict[str, List] = {}
@@ -979,10 +1086,11 @@ def traffic_case(draw):
     sends = [["send", a, f] for f in focus]
     for _ in range(draw(st.integers(1, 4))):  # neighbours of the flow and flows of other zone pairs
         a2, b2 = draw(st.sampled_from([(a, b), (a, b), (b, a)] + ZONE_PAIRS))
+        dst2 = ROUTED[b2] if draw(st.integers(0, 2)) == 0 else ZONES[b2][1]
         if draw(st.booleans()):
-            sends.append(["send", a2, [draw(st.sampled_from(["tcp", "udp"])), ZONES[a2][1], ZONES[b2][1], draw(port), draw(port)]])
+            sends.append(["send", a2, [draw(st.sampled_from(["tcp", "udp"])), ZONES[a2][1], dst2, draw(port), draw(port)]])
         else:
-            sends.append(["send", a2, ["icmp", ZONES[a2][1], ZONES[b2][1], None, None]])
+            sends.append(["send", a2, ["icmp", ZONES[a2][1], dst2, None, None]])
     if draw(st.booleans()):  # change a list between two sends
         n = draw(st.sampled_from([INGRESS_LIST[a], EGRESS_LIST[b]]))
         sends.insert(draw(st.integers(1, len(sends))), ["add", n, draw(st.sampled_from(["py", "req"])), draw(st.sampled_from([0, 1, 2])),
@@ -990,7 +1098,45 @@ def traffic_case(draw):
         sends.append(["send", a, focus[0]])
     if draw(st.booleans()):
         sends.append(["probe", EGRESS_LIST[b], focus[0]])
-    case = {"ops": list(ops) + sends, "kind": "traffic/random"}
+    case = {"ops": list(ops) + sends, "kind": "traffic-routed/random" if routed else "traffic/random"}
+    if init:
+        case["init"] = init
+    return case
+
+
+@st.composite
+def router_traffic_case(draw, port):
+    """Random router list around flows between the two sides of r0, with datagrams to the ARP port among them."""
+    side = draw(st.sampled_from(["ra", "rb"]))
+    other = "rb" if side == "ra" else "ra"
+    src, dst = SIDES[side][1], SIDES[other][1]
+    focus = draw(st.lists(st.one_of(st.tuples(st.just("udp"), st.just(src), st.just(dst), port, st.just(ARP_PORT)),
+                                    st.tuples(st.sampled_from(["tcp", "udp"]), st.just(src), st.just(dst), port, port),
+                                    st.just(("icmp", src, dst, None, None))).map(list), min_size=1, max_size=3))
+    k = draw(st.integers(0, 5))
+    poss = draw(st.permutations([0, 1, 2, 5, 21, 22, 23]))[:k]
+    rules = [[p, draw(rule_strategy(draw(st.sampled_from(focus))))] for p in poss]
+    init: Dict[str, List] = {}
+    ops: List[List] = []
+    door = draw(st.sampled_from(["cfg", "py", "req"]))
+    if door == "cfg" and rules:
+        init["router"] = rules
+    elif rules:
+        ops = [["add", "router", door, p, r] for p, r in rules]
+    for f in focus:
+        ops.append(["send", side, f])
+    for _ in range(draw(st.integers(1, 4))):
+        s2, o2 = draw(st.sampled_from([(side, other), (other, side)]))
+        kind = draw(st.sampled_from(["arp-port", "arp-port", "any", "icmp", "genuine-arp"]))
+        if kind == "genuine-arp":
+            ops.append(["send_arp", s2])
+        elif kind == "icmp":
+            ops.append(["send", s2, ["icmp", SIDES[s2][1], SIDES[o2][1], None, None]])
+        elif kind == "arp-port":
+            ops.append(["send", s2, ["udp", SIDES[s2][1], SIDES[o2][1], draw(port), ARP_PORT]])
+        else:
+            ops.append(["send", s2, [draw(st.sampled_from(["tcp", "udp"])), SIDES[s2][1], SIDES[o2][1], draw(port), draw(port)]])
+    case = {"ops": ops, "kind": "router-traffic/random"}
     if init:
         case["init"] = init
     return case
@@ -1056,7 +1202,7 @@ def worker(ctx: Ctx):
 
     quick = ctx.tier == "quick"
     enum_run(ctx, itertools.chain(single_rule_cases(ctx.tier), two_rule_cases(ctx.tier), traffic_cases(ctx.tier),
-                                  episode_cases(ctx.tier)), run)
+                                  router_traffic_cases(ctx.tier),                                  episode_cases(ctx.tier)), run)
     ctx.extra["exhaustive"] = True
     nr, n2 = len(cover_rules(ctx.tier)), len(reduced_rules(ctx.tier))
     ctx.extra["exhaustive_domain"] = (
